@@ -13,12 +13,20 @@ Amts == -1..3
 Spenders == {"alice", "bob"}
 Receivers == {"carol", "alice"}
 
+Real == Tokens \ {"nv"}
 Acts(s) ==
     {[name |-> n, sender |-> "app", spender |-> sp, token |-> t, amt |-> x, auth |-> {sp}] :
-        n \in {"PayGas", "AddGas"}, sp \in Spenders, t \in Tokens, x \in Amts}
+        n \in {"PayGas", "AddGas"}, sp \in Spenders, t \in Real, x \in Amts}
     \cup {[name |-> n, receiver |-> rc, token |-> t, amt |-> x, auth |-> au] :
-        n \in {"CollectFees", "Refund"}, rc \in Receivers, t \in Tokens, x \in Amts,
+        n \in {"CollectFees", "Refund"}, rc \in Receivers, t \in Real, x \in Amts,
         au \in {{"col0"}, {"owner0"}, {}}}
+    \* "nv": a token that does not check the sign of an amount - the service itself must insist on a
+    \* positive payment and on a non-negative collection
+    \cup (IF "nv" \in Tokens
+          THEN {[name |-> n, sender |-> "app", spender |-> "alice", token |-> "nv", amt |-> x, auth |-> {"alice"}] :
+                    n \in {"PayGas", "AddGas"}, x \in {-1, 0, 1}}
+               \cup {[name |-> "CollectFees", receiver |-> "carol", token |-> "nv", amt |-> x, auth |-> {"col0"}] : x \in {-1, 0, 1}}
+          ELSE {})
 
 InitState ==
     [bal |-> [t \in Tokens |-> [x \in Accts |-> IF x = "alice" THEN 2 ELSE IF x = "bob" THEN 1 ELSE 0]],
